@@ -1,5 +1,6 @@
 \* Reducer level, exhaustive: one message, two event ids, every event kind and the batch pairs.
-\* Measured: 915 distinct states, 142,741 transitions.
+\* plus one open write batch (one staged event) with appends committing before its commit.
+\* Measured: 12,445 distinct states, 304,341 transitions.
 SPECIFICATION SpecDirect
 CONSTANTS
   Msgs = {"m1"}
@@ -13,5 +14,5 @@ CONSTANTS
   DeltaAfterLoss = TRUE
 VIEW MCView
 INVARIANTS TypeOK C40_SeqShape
-PROPERTIES C40_SeqMonotone C40_TerminalOnce C40_ReplayNoop C40_CacheIsNotDurable
+PROPERTIES C40_StagedCommit C40_SeqMonotone C40_TerminalOnce C40_ReplayNoop C40_CacheIsNotDurable
 CHECK_DEADLOCK FALSE
